@@ -930,4 +930,41 @@ theorem implied_x_rule
   apply setVals_full
   rw [allXs_length _ _ _ _ _ (by intro e he; obtain ⟨a', len, hb⟩ := hG.2 e he; rw [hb]; simp [ap]), hsum]
 
+/-- **Implied X is right in the good class**: if every record but the first loaded one is entered at offset 0 — which
+is the case for step 1, for a log pass held in one record, and generally exactly when the selection is outside the F7
+class — and the X words of the records are consistent with a common origin (`xrec + offset·spacing = x0 +
+frame·spacing` for the located frames), the implied X of every loaded frame `f` is `x0 + f·spacing`. -/
+theorem implied_x_partial
+    (d : Dfsr) (w : Nat) (s : Int) (rle : List Item01) (st : Store) (fsOld : Option FrameSet) (sl : Option Sl)
+    (chList : Option (List Nat))
+    (hi : IndCtx d ⟨w, d.chans.map Chan.size⟩ w) (hu : d.spacingUnits = d.depthUnits) (hs : d.spacing = some s)
+    (hcl : ∀ c ∈ selIdxI d chList, c < d.chans.length) (hne : selIdxI d chList ≠ [])
+    (hR : IncTells (expand rle))
+    (hst : ∀ tn ∈ expand rle, ∃ bs x, Store.find st tn.1.toNat = some bs ∧ bs.head? = some d.dataType ∧
+      bs.length = 2 + w + tn.2 * sumN (d.chans.map Chan.size) ∧ xDecode d.depthRc (beWord ((bs.drop 2).take w)) = .ok x)
+    (hlt : (slOrAll sl (rle01Total rle)).start < (slOrAll sl (rle01Total rle)).stop)
+    (hstop : (slOrAll sl (rle01Total rle)).stop ≤ rle01Total rle)
+    (hclass : ∀ e ∈ (groupsOf (expand rle) (slOrAll sl (rle01Total rle)).start (slOrAll sl (rle01Total rle)).stop
+        (slOrAll sl (rle01Total rle)).step1).tail, e.2.headD 0 = 0)
+    (x0 : Int)
+    (hcons : ∀ f t off, locate (expand rle) f = some (t, off) →
+      xrecOf d st w t + (off : Int) * spacingOf d s = x0 + (f : Int) * spacingOf d s) :
+    (setFrameSet ⟨d, ⟨w, d.chans.map Chan.size⟩, 0, rle, fsOld⟩ st sl chList).1.frameSet.map (·.xvec)
+      = some ((rangeList (slOrAll sl (rle01Total rle)).start (slOrAll sl (rle01Total rle)).stop
+          (slOrAll sl (rle01Total rle)).step1).map (fun (f : Nat) => some (x0 + (f : Int) * spacingOf d s))) := by
+  obtain ⟨ops, _, hx⟩ := implied_x_rule d w s rle st fsOld sl chList hi hu hs hcl hne hR hst hlt hstop
+  rw [hx]
+  have hstep : 0 < (slOrAll sl (rle01Total rle)).step1 := by unfold Sl.step1; split <;> omega
+  obtain ⟨hG, hflat⟩ := groupsOf_spec (expand rle) hR (slOrAll sl (rle01Total rle)).start (slOrAll sl (rle01Total rle)).stop
+    (slOrAll sl (rle01Total rle)).step1 hstep (by rw [← expand_total]; exact hstop)
+  rw [allXs_good _ _ _ _ none hG.2 (Or.inl ⟨rfl, hclass⟩), hflat]
+  simp only [List.map_map, Option.some.injEq]
+  apply List.map_congr_left
+  intro f hf
+  simp only [Function.comp, Option.some.injEq]
+  have hfb := (mem_rangeList _ _ _ f hf).2
+  obtain ⟨r, hr⟩ := locate_lt (expand rle) f (by rw [← expand_total]; omega)
+  rw [hr]
+  exact hcons f r.1 r.2 hr
+
 end TD.C06
